@@ -554,6 +554,9 @@ func (env *Env) evalCall(e CallE) *SV {
 	case "Woutrow":
 		need(1)
 		return &SV{Sort: sRowBytes, C: []string{sel(env.st.H["Wout"], arg(0).term())}}
+	case "at":
+		need(2)
+		return ghostBV(8, false, sel(arg(0).term(), env.toBV64(arg(1))))
 	case "row":
 		need(1)
 		return &SV{Sort: sRowBytes, C: []string{sel(env.st.H["H8"], arg(0).C[0])}}
